@@ -160,7 +160,7 @@ impl Service<Request<()>> for Inner {
 #[kani::unwind(14)]
 #[kani::stub(alloc::fmt::format, fmt_stub)]
 #[kani::stub(std::hash::RandomState::new, random_state_stub)]
-#[kani::stub(tokio::time::sleep, sleep_stub)]
+#[kani::stub(tokio::time::sleep::sleep, sleep_stub)]
 fn gt_select_min() {
     // caller timeout: absent, or "<d>S" / "<d>m" with one arbitrary digit; configured timeout: any Option<Duration>
     let has_hdr: bool = kani::any();
